@@ -33,6 +33,13 @@ TSliceWrite(ev) ==
     IN /\ DomainOK(ev, InDom(ev) /\ DupFree(Sel(ev.in.shape, ev.in.r)) /\ Prod(ev.in.shape) = BodyLen(mem[ev.in.buf]))
        /\ IF ev.out.blk = exp THEN Good ELSE Bad(ev)
        /\ Resync(ev)
+\* one view object, two consecutive assignments: the second acts on the memory the first produced (both snapshot semantics)
+TSliceWrite2(ev) ==
+    LET m1  == SliceWrite(mem, ev.in.buf, ev.in.shape, ev.in.r, ev.in.aop1, ev.in.rhs1, Cx(ev))
+        exp == SliceWrite(m1, ev.in.buf, ev.in.shape, ev.in.r, ev.in.aop2, ev.in.rhs2, Cx(ev))[ev.in.buf]
+    IN /\ DomainOK(ev, InDom(ev))
+       /\ IF ev.out.blk = exp THEN Good ELSE Bad(ev)
+       /\ Resync(ev)
 TScalarWrite(ev) ==
     LET exp == AssignSel(mem, ev.in.buf, <<ScalarOff(ev.in.shape, ev.in.idx)>>, ev.in.aop, [k |-> "sc", v |-> ev.in.v], Cx(ev))[ev.in.buf]
     IN /\ IF ev.out.blk = exp THEN Good ELSE Bad(ev)
@@ -93,6 +100,7 @@ Next == /\ l <= Len(Tr)
                [] ev.e \in {"Fault", "CompileFail"} -> TFault(ev)
                [] ~live -> UNCHANGED <<mem, live>>
                [] ev.e = "SliceWrite" -> TSliceWrite(ev)
+               [] ev.e = "SliceWrite2" -> TSliceWrite2(ev)
                [] ev.e = "ScalarWrite" -> TScalarWrite(ev)
                [] ev.e = "IndexWrite" -> TIndexWrite(ev)
                [] ev.e = "MaskWrite" -> TMaskWrite(ev)
